@@ -48,7 +48,19 @@ fn connectable_families(worlds: &[World], oracles: Vec<Oracle>) -> Vec<(Family, 
   let single_sub = |w: &&World| w.acts.iter().filter(|a| matches!(a, Act::Sub(_))).count() == 1 && !w.acts.iter().any(|a| matches!(a, Act::Nest { .. }));
   let all: Vec<World> = worlds.iter().filter(single_sub).cloned().collect();
   let hot: Vec<World> = all.iter().filter(|w| is_hot_world(w)).cloned().collect();
+  // ref_count() in the middle: one operator below it (whose closure the connection keeps alive), one
+  // above it that emits at subscribe time or passes through, and on top one that ends by itself
+  let mut deep = vec![];
+  for below in reduced_ops() {
+    for mid in [Op::StartWith(vec![8]), Op::Map(MapF::Inc), Op::DefaultIfEmpty(5)] {
+      for top in [Op::Take(1), Op::Take(2), Op::First, Op::Contains(8)] {
+        deep.push(Node::op(top.clone(), Node::op(mid.clone(), Node::op(Op::RefCount, Node::op(below.clone(), Node::Src(0))))));
+      }
+    }
+  }
+  let deep_worlds: Vec<World> = all.iter().step_by(3).cloned().collect();
   vec![
+    (Family { name: "ref_count() in the middle of a depth-4 pipeline that ends by itself".into(), pipelines: deep, worlds: Arc::new(deep_worlds), oracles: oracles.clone() }, 4),
     (Family { name: "ref_count() as a pipeline stage (one subscriber), alone and with one operator below / above".into(), pipelines: connectable_pipelines(false), worlds: Arc::new(all), oracles: oracles.clone() }, 2),
     (Family { name: "replay() as a pipeline stage over hot sources (one subscriber), alone and with one operator above".into(), pipelines: connectable_pipelines(true), worlds: Arc::new(hot), oracles }, 2),
   ]
